@@ -400,6 +400,19 @@ fn rejection_f64(d: &mut Draw) -> Outcome {
     }
     must_not_panic!(frustum(l, r, b, t, n, f), "valid-frustum-panics", "frustum(valid)");
     must_not_panic!(planar(Rad(fovy), a, h, n, f), "valid-planar-panics", "planar(valid)");
+    // planar's field of view may be anything inside (-pi, pi): negative, zero of either sign (an orthographic
+    // projection: the focal point is at infinity and never between the planes), or tiny
+    let pfovy = match d.int(0, 7) {
+        0 => 0.0,
+        1 => -0.0,
+        2 => d.f64_slog(1e-300, 1e-3),
+        3 => -fovy,
+        _ => fovy,
+    };
+    d.note("planar fovy", &pfovy);
+    if pfovy == 0.0 {
+        must_not_panic!(planar(Rad(pfovy), a, h, n, f), "valid-planar-panics", format!("planar(fovy = {:?}, valid otherwise)", pfovy));
+    }
     let cls: &'static str = match which {
         0 => {
             let bad = if at_boundary { 0.0 } else { -beyond };
@@ -456,15 +469,16 @@ fn rejection_f64(d: &mut Draw) -> Outcome {
             "planar-fovy>=pi"
         }
         11 => {
-            must_panic!(planar(Rad(fovy), a, -h, n, f), "planar-accepts-negative-height", format!("planar(height = {})", -h));
+            must_panic!(planar(Rad(pfovy), a, -h, n, f), "planar-accepts-negative-height", format!("planar(fovy = {:?}, height = {})", pfovy, -h));
             "planar-height<0"
         }
         12 => {
-            must_panic!(planar(Rad(fovy), 0.0, h, n, f), "planar-accepts-zero-aspect", "planar(aspect = 0)".to_string());
+            must_panic!(planar(Rad(pfovy), 0.0, h, n, f), "planar-accepts-zero-aspect", format!("planar(fovy = {:?}, aspect = 0)", pfovy));
+            must_panic!(planar(Rad(pfovy), -0.0, h, n, f), "planar-accepts-zero-aspect", format!("planar(fovy = {:?}, aspect = -0)", pfovy));
             "planar-aspect=0"
         }
         13 => {
-            must_panic!(planar(Rad(fovy), a, h, n, n), "planar-accepts-near=far", format!("planar(near = far = {})", n));
+            must_panic!(planar(Rad(pfovy), a, h, n, n), "planar-accepts-near=far", format!("planar(fovy = {:?}, near = far = {})", pfovy, n));
             "planar-near=far"
         }
         _ => {
